@@ -1,11 +1,42 @@
 (* C18: what the driver evaluates on every observed case *)
 From Coq Require Import List Bool ZArith.
-Require Export C18.
+Require Export C18 C18_More.
 Import ListNotations.
 
-Definition case := (cfg * trace)%type.
-Definition case_accept (c : case) : bool := accept (fst c) (snd c).
-Definition case_holds (c : case) : bool := holds (fst c) (snd c).
+(* (combined, cfg, observed trace): combined = the steps were passed as ONE step built by gormx.Combine *)
+Definition case := (bool * cfg * trace)%type.
+
+Definition trace_eqb (a b : trace) : bool := list_eqb event_eqb (fst a) (fst b) && result_eqb (snd a) (snd b).
+
+Definition case_accept (c : case) : bool :=
+  let '(comb, cf, t) := c in
+  trace_eqb (if comb then transact_comb cf else transact cf) t.
+
+(* the monitor of C18.v speaks of Transact with the steps given directly; a combined run with at least one
+   sub-step must satisfy the very same clauses; an empty Combine is one succeeding step *)
+Definition case_holds (c : case) : bool :=
+  let '(comb, cf, t) := c in
+  if comb then
+    match steps cf with
+    | [] => holds {| begin_ok := begin_ok cf; commit_ok := commit_ok cf; rollback_ok := rollback_ok cf; steps := [SOk] |}
+                  (match fst t with EBegin :: rest => (EBegin :: EExec 0 :: rest, snd t) | _ => t end)
+    | _ => holds cf t
+    end
+  else holds cf t.
+
+Lemma trace_eqb_eq a b : trace_eqb a b = true -> a = b.
+Proof.
+  destruct a as [e r], b as [e' r']. unfold trace_eqb. cbn [fst snd]. intros H.
+  apply andb_prop in H as [H1 H2].
+  apply (list_eqb_eq event_eqb event_eqb_eq) in H1. apply result_eqb_eq in H2. now subst.
+Qed.
 
 Theorem case_sound : forall c, case_accept c = true -> case_holds c = true.
-Proof. intros [c t]. apply accept_sound. Qed.
+Proof.
+  intros [[comb cf] t] H. unfold case_accept in H. apply trace_eqb_eq in H. subst t. unfold case_holds.
+  destruct comb; [|apply model_holds].
+  destruct (steps cf) eqn:E.
+  - unfold transact_comb. rewrite E. destruct cf as [b cm rb st]. cbn [begin_ok commit_ok rollback_ok steps] in *.
+    destruct b, cm; reflexivity.
+  - rewrite combine_spec_lem by congruence. apply model_holds.
+Qed.
